@@ -155,6 +155,7 @@ R = {
     "own_meta_edges": tiered(round7.own_meta_edges),
     "prov_fragment_text": tiered(round7.prov_fragment_text),
     "key_parity_of_distance": tiered(round7.key_parity_of_distance),
+    "prov_valence_choice": tiered(round7.prov_valence_choice),
     "sent_numeric_attrs": tiered(extra.sent_numeric_attrs),
     "ord_complete_loops": tiered(extra.ord_complete_loops),
     "own_mutable_defaults_layout": named("own_mutable_defaults_layout", own.own_mutable_defaults, "quick", tuple(own.SKIP_MODULES), 2),
@@ -419,6 +420,7 @@ _ROUND7 = {
     "ord_resolve_annotate": (["C06"], {}),
     "prov_fragment_text": (["C06", "C13", "C08", "C01"], {"PROV.fragment-text": 2}),
     "key_parity_of_distance": (["C19"], {}),
+    "prov_valence_choice": (["C09"], {}),
     # the matching convention the user asked for has to arrive at the matcher through every constructor (C03: "both conventions")
     "sib_constructors": (["C03"], {}),
     "idx_branch_stop": (["C04"], {"IDX.branch-stop": 1}),
